@@ -786,6 +786,12 @@ func (w *World) Files(oc *OutputCfg, ww *WeatherWorld) FileSet {
 		}
 	}
 	if w.BadEnt && ww != nil {
+		// a station whose weather files exist but cannot be opened (a link that points to itself: ELOOP)
+		for name := range ww.Files(w.Cfg.WeatherLayout, w.Cfg.NumHeader, w.FCode+"loop", w.eol(), ww.Spec.FirstDay, ww.Spec.LastDay, nil, ";") {
+			fs["weather/wx/"+name] = symlinkLoopMarker
+		}
+	}
+	if w.BadEnt && ww != nil {
 		gap := w.Start() + (w.Cfg.End-w.Start())/2
 		for name, content := range ww.Files(w.Cfg.WeatherLayout, w.Cfg.NumHeader, w.FCode+"gap", w.eol(), ww.Spec.FirstDay, ww.Spec.LastDay, map[Day]bool{gap: true}, ";") {
 			fs["weather/wx/"+name] = content
@@ -793,6 +799,9 @@ func (w *World) Files(oc *OutputCfg, ww *WeatherWorld) FileSet {
 	}
 	return fs
 }
+
+// symlinkLoopMarker as file content: the path becomes a symbolic link to itself (it exists, opening it fails).
+const symlinkLoopMarker = "\x00symlink-loop"
 
 // WriteFiles puts a file set under root; the parameter folder is a symlink to
 // the repository's example parameters (read from the current working tree).
@@ -806,6 +815,13 @@ func WriteFiles(root string, fs FileSet, paramDir string) error {
 		p := filepath.Join(root, n)
 		if err := os.MkdirAll(filepath.Dir(p), 0o755); err != nil {
 			return err
+		}
+		if fs[n] == symlinkLoopMarker {
+			os.Remove(p)
+			if err := os.Symlink(filepath.Base(p), p); err != nil {
+				return err
+			}
+			continue
 		}
 		if err := os.WriteFile(p, []byte(fs[n]), 0o644); err != nil {
 			return err
